@@ -2,7 +2,7 @@
 import numpy as np
 import gen as G
 
-MODELS = ['xxz', 'xxz', 'ising', 'bose', 'randherm', 'randherm_q', 'fermi']
+MODELS = ['xxz', 'xxz', 'ising', 'bose', 'randherm', 'randherm_q', 'fermi', 'xxz_dm']
 
 
 def hamiltonian(model, L, rs):
@@ -12,6 +12,19 @@ def hamiltonian(model, L, rs):
         if L == 1:
             h = 0.25   # the two-site terms do not fit: avoid the identically-zero operator
         return ptn.heisenberg_xxz_mpo(L, J, D, h)
+    if model == 'xxz_dm':
+        # XXZ chain with a Dzyaloshinskii-Moriya-like complex hopping: sum J/2 (e^{-i theta} S+_j S-_{j+1} + h.c.) + D Sz Sz - h Sz,
+        # obtained from the XXZ MPO by the site-dependent twist W_j[s,t] -> e^{i theta j (z_s - z_t)} W_j[s,t] (complex Hermitian, same charges)
+        J, D, h = float(rs.choice([1.0, -0.7])), float(rs.choice([0.0, 1.3])), float(rs.choice([0.0, 0.25]))
+        theta = float(rs.choice([0.4, 1.1, -0.7]))
+        if L == 1:
+            h = 0.25
+        H = ptn.heisenberg_xxz_mpo(L, J, D, h)
+        z = np.array([0.5, -0.5])
+        for j in range(L):
+            ph = np.exp(1j * theta * j * (z[:, None] - z[None, :]))
+            H.A[j] = H.A[j] * ph[:, :, None, None]
+        return H
     if model == 'ising':
         return ptn.ising_mpo(L, 1.0, float(rs.choice([0.0, 0.4])), float(rs.choice([0.7, -1.1])))
     if model == 'bose':
@@ -83,6 +96,9 @@ def state(H, rs, Dmax=3, complete=False, sectors=True, dtype='complex', info=Non
                 if info is not None:
                     info['mixed'] = mixed
         psi = ptn.MPS(qd, qD, fill='random', rng=rs)
+        if dtype == 'real':
+            # real-valued state (meets complex Hermitian MPOs): keep the real parts, block sparsity is unaffected
+            psi.A = [np.ascontiguousarray(np.real(a)) for a in psi.A]
         return psi
     return G.rand_mps(rs, L, d, qclass='unsorted' if np.any(qd) else 'zero', Dmax=Dmax, qd=qd, dtype=dtype)
 
